@@ -122,6 +122,9 @@ func genLifecycle(r *rand.Rand, quick bool) *plan.Plan {
 	}
 	inc.Ops = append(inc.Ops, plan.Op{Kind: "par", Par: clients})
 	// quiescence, then the leak check and a liveness probe (other queries still complete)
+	// early probe: 300 ms after the last client returned every goroutine of every query must be gone (judged only
+	// in histories without stall faults and without websocket clients that stop reading, see the oracle)
+	inc.Ops = append(inc.Ops, plan.Op{Kind: "advance", DurMs: 300}, plan.Op{Kind: "qstats", Args: map[string]any{"early": true}})
 	inc.Ops = append(inc.Ops, plan.Op{Kind: "advance", DurMs: 20_000}, plan.Op{Kind: "qstats"},
 		plan.Op{Kind: "query", Index: "lay", Text: "* | stats count", Start: qStart, End: qEnd}, plan.Op{Kind: "advance", DurMs: 2_000}, plan.Op{Kind: "qstats"})
 	p.Incs = []plan.Incarnation{inc}
@@ -161,7 +164,7 @@ func lifecycleOracle(prop string, res *RunResult) []Violation {
 		return []Violation{{Sig: prop + ":node-" + ab + ":" + ir.PanicSite(), Msg: trimTo(ir.Stderr, 2500)}}
 	}
 	timeoutMs := int64(res.Plan.Knobs.QueryTimeoutSec) * 1000
-	var baseline, final *qstat
+	var baseline, early, final *qstat
 	var stalls []struct{ at, dur int64 }
 	cancelAt := map[int]int64{}
 	type qrun struct {
@@ -188,6 +191,8 @@ func lifecycleOracle(prop string, res *RunResult) []Violation {
 			_ = json.Unmarshal(e.Data, &s)
 			if oi < parIdx || parIdx < 0 {
 				baseline = &s
+			} else if op.Args["early"] == true {
+				early = &s
 			} else {
 				final = &s
 			}
@@ -306,6 +311,27 @@ func lifecycleOracle(prop string, res *RunResult) []Violation {
 			if q.ret-maxI64(ca, faultsEnd) > 15_000 {
 				vs = append(vs, Violation{Sig: prop + ":cancel-not-prompt" + allSlotsStalled(res.Plan), Msg: fmt.Sprintf("%s %q: cancelled at %d, returned at %d", q.id, q.text, ca, q.ret)})
 			}
+		}
+	}
+	if early != nil && baseline != nil && !hasStallOrWS(res.Plan) {
+		// no fault holds anything back in this history: 300 ms after the last answer nothing of any query may be
+		// left (a cancelled query's time-out goroutine waiting for its timer is the classic leftover)
+		var leaked []string
+		for name, n := range early.Tasks {
+			if strings.HasPrefix(name, "client") || name == "main" || strings.HasPrefix(name, "adopted#") {
+				continue
+			}
+			if n > baseline.Tasks[name] {
+				leaked = append(leaked, fmt.Sprintf("%s x%d", name, n-baseline.Tasks[name]))
+			}
+		}
+		sort.Strings(leaked)
+		if len(leaked) > 0 {
+			sites := make([]string, len(leaked))
+			for i, l := range leaked {
+				sites[i] = strings.Fields(l)[0]
+			}
+			vs = append(vs, Violation{Sig: prop + ":goroutines-left-after-the-last-answer:" + strings.Join(sites, ","), Msg: strings.Join(leaked, "; ")})
 		}
 	}
 	if final != nil {
@@ -446,9 +472,24 @@ func init() {
 	})
 }
 
+func hasStallOrWS(p *plan.Plan) bool {
+	for _, inc := range p.Incs {
+		for _, op := range inc.Ops {
+			for _, cl := range op.Par {
+				for _, o := range cl {
+					if o.Kind == "stall" || (o.Kind == "ws_query" && paramInt(o.Args["read"], -1) >= 0) {
+						return true // a stall fault, or a websocket client that stops reading
+					}
+				}
+			}
+		}
+	}
+	return false
+}
+
 func planHasFinalQstats(ops []plan.Op, parIdx int) bool {
 	for oi := range ops {
-		if ops[oi].Kind == "qstats" && parIdx >= 0 && oi > parIdx {
+		if ops[oi].Kind == "qstats" && parIdx >= 0 && oi > parIdx && ops[oi].Args["early"] != true {
 			return true
 		}
 	}
